@@ -11,8 +11,8 @@
 struct S_class_ikos__z_number;
 typedef struct S_class_ikos__z_number Z;
 #ifndef __cplusplus
-#define ZLO(p) ((p)->f0.a[0].f0)
-#define ZHI(p) ((p)->f0.a[0].f1)
+#define ZLO(p) ((p)->f0.a.f0)
+#define ZHI(p) ((p)->f0.a.f1)
 static inline i128 ZV(const Z *p){ return (i128)(((u128)ZHI(p) << 64) | (u128)ZLO(p)); }
 static inline void ZSET(Z *p, i128 v){ ZLO(p) = (uint64_t)(u128)v; ZHI(p) = (uint64_t)((u128)v >> 64); }
 #define ZLIM (((i128)1) << 100)
